@@ -7,7 +7,7 @@ props = [json.loads(l) for l in open('/verif/properties.jsonl')]
 ids = [p['id'] for p in props]
 
 TRUST = ("Trusted: Go type checker + go/ssa (x/tools v0.50.0), the VC generator cmd/govc, z3 4.8.12 / z3 5.1.0 / cvc5 "
-         "(an unsat from any one), slice sizes < 2^62, error sentinels and tables never reassigned (scanned), "
+         "(an unsat from any one), slice sizes < 2^60, error sentinels and tables never reassigned (scanned), "
          "single-threaded execution, floats opaque. Assumed library contracts and every havocked call hit are listed in the evidence file on each run.")
 
 # property -> (claim text, note about what is NOT decided, design ref)
